@@ -22,7 +22,9 @@ static void level_cases(int lvl) {
     unsigned char* mid = g_pages + PG;
     const PC classes[] = {
         {"valid", mid + 1024}, {"null", nullptr}, {"prot", g_pages + 2 * PG + 128},
-        {"prot_before", g_pages + 64}, {"end", mid + PG - 64}, {"low", reinterpret_cast<unsigned char*>(8)}};
+        {"prot_before", g_pages + 64}, {"end", mid + PG - 64}, {"low", reinterpret_cast<unsigned char*>(8)},
+        // the last cache line of the address space: address arithmetic that wraps must not turn into an endless loop
+        {"top", reinterpret_cast<unsigned char*>(~std::uintptr_t(0) - 63)}};
     const std::size_t counts[] = {0, 1, 2, 63, 64, 65, 127, 128, 129, 4095, 4096, 4097, 3 * 4096 + 5,
                                  (std::size_t(1) << 32) - 32, (std::size_t(1) << 32) + 100};   // beyond 32 bits: the call must still return
     for (const PC& pc : classes)
@@ -33,7 +35,9 @@ static void level_cases(int lvl) {
                         unsigned char* p = pc.p ? pc.p + off : (off ? reinterpret_cast<unsigned char*>(std::uintptr_t(off)) : nullptr);
                         if (typed && n > 4097) continue;
                         if (n > (1u << 20) && (off % 21 != 0 || std::strcmp(pc.name, "valid") != 0)) continue;   // a few long runs only
-                        if (n > (1u << 20)) alarm(25);   // watchdog: a hint loop that never terminates
+                        const bool top = std::strcmp(pc.name, "top") == 0;
+                        if (top && (n > 4097 || (n + off > 64 && n > 64))) continue;   // stay below the end of the address space
+                        if (n > (1u << 20) || top) alarm(25);   // watchdog: a hint loop that never terminates
                         std::memcpy(g_copy, mid, PG);
                         const void* vp = p;
                         opaque(vp);
